@@ -302,9 +302,20 @@ package sftp
 
 //@ pred connOK(c *Client) = c != nil && c.inflight != nil && c.WriteCloser != nil
 
+//@ ghost var rem uint32
+
 //@ func (*Client).ReadDirContext
 //@   property C20, C16, C03
 //@   requires connOK(c)
+//@   update after call (*Client).opendir#1: ghost.rem = 0
+//@   loop 1 ghost rem
+//@   loop 1 invariant ghost.rem == 0
+//@   update after call unmarshalUint32Safe#1: ghost.rem = ret0
+//@   loop 2 ghost rem
+//@   loop 2 invariant ghost.rem == count - i && i <= count
+//@   update after call unmarshalAttrs#1: ghost.rem = ghost.rem - 1
+// (every entry of every NAME batch is decoded: the per-batch counter of entries still to be visited is 0 whenever the
+//  client asks for the next batch)
 //@   requires ctx != nil
 
 //@ func (*Client).opendir
@@ -1158,8 +1169,13 @@ package sftp
 //@   ensures !old(haskey(rs.openRequests, handle)) ==> result == EBADF
 //@   assert before call (*Request).close#1: arg0 == old(rs.openRequests[handle]) && !haskey(rs.openRequests, handle)
 
+//@ ghost var ctxDone bool
+
 //@ func (*Request).close
 //@   property C07, C11
+//@   update before call (*state).closeListerAt#1: ghost.ctxDone = false
+//@   update after call (*Request).close$1#1: ghost.ctxDone = true
+//@   ensures ghost.ctxDone
 //@   assume-frame
 //@   modifies r.listerAt, r.writerAtReaderAt
 // (frame assumed: Close / cancel functions of handler-provided objects do not touch the server's handle table)
@@ -1193,24 +1209,32 @@ package sftp
 
 //@ func packetData
 //@   property C07, C01
+//@   assert before call (*sshFxpReadPacket).getDataSlice#1: arg1 == alloc && arg2 == orderID && arg3 == maxTxPacket
+//@   ensures typeis(p, *sshFxpReadPacket) ==> len(data) == int(min(p.(*sshFxpReadPacket).Len, maxTxPacket))
 //@   requires (alloc == nil || alloc.used != nil) && maxTxPacket <= 0x7fffffff
 //@   ensures typeis(p, *sshFxpWritePacket) ==> data == p.(*sshFxpWritePacket).Data && offset == int64(p.(*sshFxpWritePacket).Offset)
 //@   ensures typeis(p, *sshFxpReadPacket) ==> offset == int64(p.(*sshFxpReadPacket).Offset)
 
 //@ func fileget
 //@   property C07, C02, C01
+//@   assert before call packetData#1: arg0 == pkt && arg1 == alloc && arg2 == orderID && arg3 == maxTxPacket
+//@   assert before call (io.ReaderAt).ReadAt#1: arg1 == data && arg2 == offset
 //@   requires r != nil && pkt != nil && (alloc == nil || alloc.used != nil) && rsReqType(pkt) && maxTxPacket <= 0x7fffffff
 //@   ensures result != nil && result.id() == pkt.id()
 //@   ensures typeis(result, *sshFxpDataPacket) || typeis(result, *sshFxpStatusPacket)
 
 //@ func fileput
 //@   property C07, C02, C01
+//@   assert before call (io.WriterAt).WriteAt#1: arg1 == data && arg2 == offset
 //@   requires r != nil && pkt != nil && (alloc == nil || alloc.used != nil) && rsReqType(pkt) && maxTxPacket <= 0x7fffffff
 //@   ensures result != nil && result.id() == pkt.id()
 //@   ensures typeis(result, *sshFxpStatusPacket)
 
 //@ func fileputget
 //@   property C07, C02, C01
+//@   assert before call (*sshFxpReadPacket).getDataSlice#1: arg1 == alloc && arg2 == orderID && arg3 == maxTxPacket
+//@   assert before call (WriterAtReaderAt).ReadAt#1: arg2 == int64(p.Offset)
+//@   assert before call (WriterAtReaderAt).WriteAt#1: arg1 == p.Data && arg2 == int64(p.Offset)
 //@   requires r != nil && pkt != nil && (alloc == nil || alloc.used != nil) && rsReqType(pkt) && maxTxPacket <= 0x7fffffff
 //@   ensures result != nil && result.id() == pkt.id()
 //@   ensures typeis(result, *sshFxpDataPacket) || typeis(result, *sshFxpStatusPacket)
@@ -1223,6 +1247,9 @@ package sftp
 
 //@ func filelist
 //@   property C07, C02, C16
+//@   assert before call (ListerAt).ListAt#1: arg2 == offset && len(arg1) == int(MaxFilelist)
+//@   assert before call (*state).lsInc#1: arg1 == int64(n) && arg0 == &r.state
+//@   loop 1 invariant len(nameAttrs) == rangeindex + 1 && cap(nameAttrs) == len(finfo) && rangeindex < len(finfo)
 //@   requires h != nil && r != nil && pkt != nil && rsReqType(pkt)
 //@   requires MaxFilelist >= 1 && MaxFilelist <= 1000000
 //@   ensures result != nil && result.id() == pkt.id()
@@ -1255,6 +1282,9 @@ package sftp
 
 //@ func (*Request).open
 //@   property C07, C02, C10
+//@   assert before call (OpenFileWriter).OpenFile#1: r.Method == "Open" && arg1 == r && r.Flags & sshFxfRead != 0 && r.Flags & (sshFxfWrite | sshFxfAppend | sshFxfCreat | sshFxfTrunc) != 0
+//@   assert before call (FileWriter).Filewrite#1: r.Method == "Put" && arg1 == r && r.Flags & (sshFxfWrite | sshFxfAppend | sshFxfCreat | sshFxfTrunc) != 0 && !(r.Flags & sshFxfRead != 0 && typeis(h.FilePut, OpenFileWriter))
+//@   assert before call (FileReader).Fileread#1: r.Method == "Get" && arg1 == r && r.Flags & sshFxfRead != 0 && r.Flags & (sshFxfWrite | sshFxfAppend | sshFxfCreat | sshFxfTrunc) == 0
 //@   requires r != nil && pkt != nil && handlersOK(h) && rsReqType(pkt)
 //@   ensures result != nil && result.id() == pkt.id()
 //@   ensures typeis(result, *sshFxpHandlePacket) || typeis(result, *sshFxpStatusPacket)
@@ -1279,6 +1309,10 @@ package sftp
 //@   assert before call (*packetManager).readyPacket#1: arg1.orderid == orderID
 //@   assert before call (*packetManager).readyPacket#1: arg1.responsePacket != nil
 //@   assert before call (*packetManager).readyPacket#1: arg1.responsePacket.id() == ghost.curID
+//@   assert before call (*Request).call#3: arg0.Method == "PosixRename" && arg0.Filepath == cleanPathWithBase(rs.startDirectory, pkt.Oldpath) && arg0.Target == cleanPathWithBase(rs.startDirectory, pkt.Newpath)
+//@   assert before call (*Request).call#4: arg0.Method == "StatVFS" && arg0.Filepath == cleanPathWithBase(rs.startDirectory, pkt.Path)
+//@   assert before call (*Request).call#1: arg0.Method == "Stat"
+//@   assert before call (*Request).call#2: arg0.Method == "Setstat"
 //@   ensures result == nil
 //@   ensures ghost.ready - ghost.taken == old(ghost.ready) - old(ghost.taken)
 
@@ -1678,6 +1712,7 @@ package sftp
 
 //@ func cleanPathWithBase
 //@   property C07, C10, C05
+//@   function
 
 //@ func cleanPath
 //@   property C07, C10, C05
